@@ -51,6 +51,11 @@ type Settings struct {
 	pushSet       bool
 	maxStreamsSet bool
 	windowSizeSet bool
+
+	// seen records which parameters the frame this Settings was decoded from
+	// carried (bit id-1 for parameter id), so that the receiver can leave the
+	// ones it did not carry as they were.
+	seen uint8
 }
 
 func (st *Settings) Type() FrameType {
@@ -73,6 +78,7 @@ func (st *Settings) Reset() {
 	st.pushSet = false
 	st.maxStreamsSet = false
 	st.windowSizeSet = false
+	st.seen = 0
 }
 
 // CopyTo copies st fields to st2.
@@ -90,6 +96,36 @@ func (st *Settings) CopyTo(st2 *Settings) {
 	st2.pushSet = st.pushSet
 	st2.maxStreamsSet = st.maxStreamsSet
 	st2.windowSizeSet = st.windowSizeSet
+	st2.seen = st.seen
+}
+
+// applyTo updates st2 with the parameters of a received SETTINGS frame. A
+// parameter the frame did not carry keeps the value it had: only the ones that
+// are present replace what the peer said before (RFC 7540 6.5.3), they do not
+// fall back to the protocol defaults.
+func (st *Settings) applyTo(st2 *Settings) {
+	st2.ack = st.ack
+	st2.rawSettings = append(st2.rawSettings[:0], st.rawSettings...)
+	st2.hasWindowSize = st.hasWindowSize
+
+	if st.seen&(1<<(HeaderTableSize-1)) != 0 {
+		st2.tableSize = st.tableSize
+	}
+	if st.seen&(1<<(EnablePush-1)) != 0 {
+		st2.enablePush = st.enablePush
+	}
+	if st.seen&(1<<(MaxConcurrentStreams-1)) != 0 {
+		st2.maxStreams = st.maxStreams
+	}
+	if st.seen&(1<<(MaxWindowSize-1)) != 0 {
+		st2.windowSize = st.windowSize
+	}
+	if st.seen&(1<<(MaxFrameSize-1)) != 0 {
+		st2.frameSize = st.frameSize
+	}
+	if st.seen&(1<<(MaxHeaderListSize-1)) != 0 {
+		st2.headerSize = st.headerSize
+	}
 }
 
 // SetHeaderTableSize sets the maximum size of the header
@@ -202,6 +238,10 @@ func (st *Settings) Read(d []byte) error {
 		b = d[last:i]
 		key = uint16(b[0])<<8 | uint16(b[1])
 		value = uint32(b[2])<<24 | uint32(b[3])<<16 | uint32(b[4])<<8 | uint32(b[5])
+
+		if key >= HeaderTableSize && key <= MaxHeaderListSize {
+			st.seen |= 1 << (key - 1)
+		}
 
 		switch key {
 		case HeaderTableSize:
